@@ -36,6 +36,16 @@ Theorem C18_parse_format_partial : forall inline e,
 Proof. exact parse_format_text. Qed.
 Print Assumptions C18_parse_format_partial.
 
+(* The same with the domain stated WITHOUT reference to is_framed: [michelson_expr e] only says that
+   the applications standing in argument position are the ones Michelson puts there (composite types,
+   Pair/Left/Right/Some/Lambda_rec/Ticket, constant; simple types with annotations only), that tags and
+   annotations are tokens, and that the root is not a single section.  That the formatter parenthesises
+   every one of them is part of the proof (this is what defects #16 and #44 had broken). *)
+Theorem C18_parse_format_michelson_partial : forall inline e,
+  michelson_expr e = true -> parse_text (format_text inline e) = TNode e.
+Proof. intros inline e H. apply parse_format_text, michelson_expr_wf, H. Qed.
+Print Assumptions C18_parse_format_michelson_partial.
+
 (* that text is a layout of the token stream fmt_tokens e (so the layout-quantified theorem below
    applies to it), in both modes *)
 Theorem C18_format_text_tokens : forall inline e,
@@ -149,8 +159,8 @@ Definition ex_code : node :=
   NSeq [NPrim x43 [NPrim x65 [NPrim x62 [] [[x25; x61]]; NPrim x5b [] []] [];
                   NPrim x07 [NInt 1; NInt (-2); NStr [x61; x22; x62; x0a]] []] [];
         NPrim x2c [NSeq [NPrim x20 [] []]; NSeq []] []].
-Example C18_example_wf : wf_expr ex_code = true.
-Proof. vm_compute. reflexivity. Qed.
+Example C18_example_wf : wf_expr ex_code = true /\ michelson_expr ex_code = true.
+Proof. vm_compute. split; reflexivity. Qed.
 (* a multi-line layout with a comment *)
 Example C18_example_layout :
   let lt := combine ([] :: repeat [FWs c_lf; FWs c_sp; FLine [x63]; FBlock [x64]] 40) (fmt_tokens ex_code) in
